@@ -8,6 +8,10 @@ import GeoVerif.Proofs.AuxCert6
 import GeoVerif.Proofs.AuxCert7
 import GeoVerif.Proofs.AuxCert8
 import GeoVerif.Proofs.AuxCert9
+import GeoVerif.Proofs.AuxCompAll
+import GeoVerif.Proofs.CarlsonGen
+import GeoVerif.Proofs.Jacobi
+import GeoVerif.Proofs.AuxExactP
 import GeoVerif.Model.AuxLat
 import GeoVerif.Spec.RealInst
 import Mathlib.Tactic.Ring
@@ -31,6 +35,16 @@ wrong coefficient anywhere in `coeffs[]` falsifies `aux_revert` for its pair.
 
 Part 2: exact-real theorems about the formula models of `Model/AuxLat.lean` (the same definitions the driver runs in
 binary64 against the implementation).
+
+Part 3: `EllipticFunction` (`Model/Elliptic.lean`): Carlson's duplication loops (invariants for every trip budget, exit
+bound, symmetry, the symmetric functions, `R_C`'s duplication), the constants of the source (`Gen/Carlson.lean`), Bulirsch's
+`sncndn` (Landen descent for every AGM depth), the frame and the period handling of the six incomplete integrals for every
+kernel, `Ed`, `Einv`.
+
+Part 4: `AuxAngle`, the exact methods of `AuxLatitude` and the measures of `Ellipsoid` (`Model/AuxExact.lean`).
+
+The lemmas are proved in `Proofs/Carlson.lean`, `Proofs/CarlsonGen.lean`, `Proofs/Jacobi.lean`, `Proofs/AuxExactP.lean`,
+`Proofs/AuxCompAll.lean`; they are restated here so that every one of them is an audited obligation.
 -/
 namespace GeoVerif.Props.C15
 open GeoVerif GeoVerif.Series GeoVerif.Series.Aux GeoVerif.AuxLat Real
@@ -80,16 +94,14 @@ theorem aux_revert :
   ⟨revert_0_1, revert_0_2, revert_0_3, revert_0_4, revert_0_5, revert_1_2, revert_1_3, revert_1_4, revert_1_5,
    revert_2_3, revert_2_4, revert_2_5, revert_3_4, revert_3_5, revert_4_5⟩
 
-/-- `checkCompose c b a`: C[c←a] = C[c←b] ∘ C[b←a] modulo `n^(L+1)`.  These nine link every table to the base tables
-    (closed forms, `mu_beta_table`, `chi_ode`, `xi_ode`) via `aux_revert`.
-    Full statement of the design (`aux_compose` for all 120 ordered triples) follows from these by uniqueness of
-    composition/reversion but is not kernel-checked triple by triple (≈ 25 CPU-minutes); it is evaluated by the harness run only. -/
-theorem aux_compose_partial :
-    checkCompose 3 1 0 = true ∧ checkCompose 3 1 2 = true ∧ checkCompose 4 0 1 = true ∧ checkCompose 4 0 2 = true ∧
-    checkCompose 4 1 3 = true ∧ checkCompose 5 0 1 = true ∧ checkCompose 5 0 2 = true ∧ checkCompose 5 1 3 = true ∧
-    checkCompose 5 0 4 = true :=
-  open Proofs.AuxCert in
-  ⟨compose_3_1_0, compose_3_1_2, compose_4_0_1, compose_4_0_2, compose_4_1_3, compose_5_0_1, compose_5_0_2, compose_5_1_3, compose_5_0_4⟩
+/-- `aux_compose`: for every ordered triple `(c, b, a)` of distinct auxiliary latitudes, C[c←a] = C[c←b] ∘ C[b←a] modulo
+    `n^(L+1)` — all 120 triples, each one a kernel-checked certificate (`Proofs/AuxCert1…9`, `Proofs/AuxComp01…19`, about 10 s
+    each, checked in parallel and only when `coeffs[]` changes) -/
+theorem aux_compose (c b a : Nat) (hc : c < 6) (hb : b < 6) (ha : a < 6) (h1 : c ≠ b) (h2 : b ≠ a) (h3 : a ≠ c) :
+    checkCompose c b a = true :=
+  Proofs.AuxCert.compose_of_distinct c b a hc hb ha h1 h2 h3
+
+example : (3 : Nat) < 6 ∧ (1 : Nat) < 6 ∧ (0 : Nat) < 6 ∧ (3 : Nat) ≠ 1 ∧ (1 : Nat) ≠ 0 ∧ (0 : Nat) ≠ 3 := by decide
 
 /-! ## Part 2: exact-real theorems about the formula models -/
 
@@ -127,7 +139,6 @@ theorem ellipsoid_algebra (hf : f < 1) :
     | ring1
     | exact g6
     | exact g7
-    | (field_simp; ring1)
 
 example : (1 / 298 : ℝ) < 1 := by norm_num
 
@@ -207,6 +218,56 @@ theorem third_eccentricity_sq_inverse (hf : f < 1) :
 
 example : (-1 / 100 : ℝ) < 1 ∧ (1 / 298 : ℝ) < 1 := by constructor <;> norm_num
 
+/-- `FlatteningToSecondEccentricitySq ∘ SecondEccentricitySqToFlattening = id` for e′² > −1 -/
+theorem second_eccentricity_sq_inverse_rev (ep2 : ℝ) (h : -1 < ep2) :
+    flatteningToSecondEccentricitySq (secondEccentricitySqToFlattening ep2) = ep2 := by
+  unfold secondEccentricitySqToFlattening flatteningToSecondEccentricitySq RealLike.sq
+  simp only [lit_real, sqrt_real]; push_cast
+  set s := √(1 + ep2) with hs
+  have hs0 : 0 < s := Real.sqrt_pos.mpr (by linarith)
+  have hss : s * s = 1 + ep2 := Real.mul_self_sqrt (by linarith)
+  have he : ep2 = s * s - 1 := by linarith
+  have hden : s + 1 + ep2 = s * (s + 1) := by rw [he]; ring
+  have hf : ep2 / (s + 1 + ep2) = 1 - 1 / s := by
+    rw [hden, he]; field_simp; ring
+  rw [hf]
+  have h1 : (1 : ℝ) - (1 - 1 / s) = 1 / s := by ring
+  rw [h1, he]; field_simp; ring
+
+/-- `FlatteningToThirdEccentricitySq ∘ ThirdEccentricitySqToFlattening = id` for −1 < e″² < 1 -/
+theorem third_eccentricity_sq_inverse_rev (t : ℝ) (h1 : -1 < t) (h2 : t < 1) :
+    flatteningToThirdEccentricitySq (thirdEccentricitySqToFlattening t) = t := by
+  unfold thirdEccentricitySqToFlattening flatteningToThirdEccentricitySq RealLike.sq
+  simp only [lit_real, sqrt_real]; push_cast
+  set r := √((1 - t) * (1 + t)) with hr
+  have hpos : 0 < (1 - t) * (1 + t) := by nlinarith
+  have hr0 : 0 < r := Real.sqrt_pos.mpr hpos
+  have hrr : r * r = (1 - t) * (1 + t) := Real.mul_self_sqrt hpos.le
+  have hD : 0 < r + 1 + t := by linarith
+  have hf1 : (1 : ℝ) - 2 * t / (r + 1 + t) = (r + 1 - t) / (r + 1 + t) := by field_simp; ring
+  have hsq : ((r + 1 - t) / (r + 1 + t)) * ((r + 1 - t) / (r + 1 + t)) = (1 - t) / (1 + t) := by
+    have e1 : (r + 1 - t) * (r + 1 - t) = 2 * (1 - t) * (1 + r) := by nlinarith
+    have e2 : (r + 1 + t) * (r + 1 + t) = 2 * (1 + t) * (1 + r) := by nlinarith
+    rw [div_mul_div_comm, e1, e2]
+    have : (1 : ℝ) + t ≠ 0 := by linarith
+    have : (1 : ℝ) + r ≠ 0 := by linarith
+    field_simp
+  have hnum : 2 * t / (r + 1 + t) * (2 - 2 * t / (r + 1 + t)) = 1 - ((r + 1 - t) / (r + 1 + t)) * ((r + 1 - t) / (r + 1 + t)) := by
+    field_simp; ring
+  rw [hf1, hnum, hsq]
+  have : (1 : ℝ) + t ≠ 0 := by linarith
+  field_simp; ring
+
+/-- `Volume() = 4π a² b / 3` -/
+theorem volume_closed_form (a f : ℝ) : volume a f = 4 * π * a ^ 2 * (a * (1 - f)) / 3 := by
+  unfold volume ctorB RealLike.sq
+  simp only [lit_real]; push_cast
+  show (4 * Real.pi) * (a * a) * (a * (1 - f)) / 3 = _
+  ring
+
+example : (-1 : ℝ) < 1 / 150 ∧ (-1 : ℝ) < -1 / 300 ∧ (-1 / 300 : ℝ) < 1 := by norm_num
+
+
 end algebra
 
 /-! ### the series path of `Convert` is odd and fixes the equator and the poles (for every coefficient vector) -/
@@ -248,34 +309,593 @@ theorem convert_odd_fixes (c : List ℝ) (sz cz : ℝ) :
 /-- the coefficient vector actually used is `fillcoeff`: instance of the above for the extracted tables -/
 example (f cz : ℝ) : convertSeries f 0 3 0 cz = (0, cz) := (convert_odd_fixes _ 0 cz).2.1
 
-/-! ### Carlson's algorithms: algebraic invariants of the duplication step and the polynomial tails -/
+/-! ## Part 3: `EllipticFunction` -/
 
-/-- with `λ = √x√y + √y√z + √z√x` the duplicated argument factors: `x + λ = (√x + √y)(√x + √z)` (and cyclically) —
-    this is why the duplication step maps non-negative arguments to positive ones and contracts their spread -/
-theorem carlson_dup_factor (sx sy sz : ℝ) :
-    sx * sx + dupLam sx sy sz = (sx + sy) * (sx + sz) ∧ sy * sy + dupLam sx sy sz = (sy + sz) * (sy + sx) ∧
-    sz * sz + dupLam sx sy sz = (sz + sx) * (sz + sy) := by
-  unfold dupLam; refine ⟨by ring, by ring, by ring⟩
+section elliptic
+open GeoVerif.Elliptic GeoVerif.Proofs.Jacobi
 
-/-- the mean `A = (x+y+z)/3` is mapped to `(A + λ)/4` and the deviations `A − x` shrink by exactly 4 (so `X = (A₀−x)/(4ᵐ Aₘ)`) -/
-theorem carlson_dup_mean (x y z lam : ℝ) :
-    (dupStep x lam + dupStep y lam + dupStep z lam) / 3 = dupStep ((x + y + z) / 3) lam ∧
-    dupStep ((x + y + z) / 3) lam - dupStep x lam = ((x + y + z) / 3 - x) / 4 := by
-  unfold dupStep; simp only [lit_real]; push_cast; constructor <;> ring
+/-! ### the constants of the source (depend on `Gen/Carlson.lean`, re-extracted on every run) -/
+
+/-- numerator table, denominator, multiplier of the accumulated sum and trip cap of `RF` in the source = those of the model -/
+theorem carlson_rf_series_gen (E2 E3 : ℝ) :
+    Proofs.CarlsonGen.evalMV Gen.Carlson.rfPoly [E2, E3] = Elliptic.rfTail E2 E3 ∧ Gen.Carlson.rfDen = 240240 ∧ Gen.Carlson.rfSumMul = 0 ∧
+    Gen.Carlson.rfTrips = trips := Proofs.CarlsonGen.rf_series E2 E3
+theorem carlson_rd_series_gen (E2 E3 E4 E5 : ℝ) :
+    Proofs.CarlsonGen.evalMV Gen.Carlson.rdPoly [E2, E3, E4, E5] = Elliptic.rjTail E2 E3 E4 E5 ∧ Gen.Carlson.rdDen = 4084080 ∧ Gen.Carlson.rdSumMul = 3 ∧
+    Gen.Carlson.rdTrips = trips := Proofs.CarlsonGen.rd_series E2 E3 E4 E5
+theorem carlson_rj_series_gen (E2 E3 E4 E5 : ℝ) :
+    Proofs.CarlsonGen.evalMV Gen.Carlson.rjPoly [E2, E3, E4, E5] = Elliptic.rjTail E2 E3 E4 E5 ∧ Gen.Carlson.rjDen = 4084080 ∧ Gen.Carlson.rjSumMul = 6 ∧
+    Gen.Carlson.rjTrips = trips := Proofs.CarlsonGen.rj_series E2 E3 E4 E5
+/-- the means `A0` of the source are `(x+y+z)/3`, `(x+y+3z)/5`, `(x+y+z+2p)/5` -/
+theorem carlson_means_gen (x y z p : ℝ) :
+    Proofs.CarlsonGen.evalLin Gen.Carlson.rfMean [x, y, z] = (x + y + z) / 3 ∧
+    Proofs.CarlsonGen.evalLin Gen.Carlson.rdMean [x, y, z] = (x + y + 3 * z) / 5 ∧
+    Proofs.CarlsonGen.evalLin Gen.Carlson.rjMean [x, y, z, p] = (x + y + z + 2 * p) / 5 := Proofs.CarlsonGen.means x y z p
+/-- `E₂ … E₅` of the source, as polynomials in the independent deviations, are those of the model -/
+theorem carlson_edefs_gen (X Y Z : ℝ) :
+    (Gen.Carlson.rfEdefs.map fun p => Proofs.CarlsonGen.evalMVq p [X, Y]) = [X * Y - (-(X + Y)) * (-(X + Y)), X * Y * (-(X + Y))] ∧
+    (Gen.Carlson.rdEdefs.map fun p => Proofs.CarlsonGen.evalMVq p [X, Y]) = [(rdE X Y).1, (rdE X Y).2.1, (rdE X Y).2.2.1, (rdE X Y).2.2.2] ∧
+    (Gen.Carlson.rjEdefs.map fun p => Proofs.CarlsonGen.evalMVq p [X, Y, Z]) = [(rjE X Y Z).1, (rjE X Y Z).2.1, (rjE X Y Z).2.2.1, (rjE X Y Z).2.2.2] :=
+  Proofs.CarlsonGen.edefs X Y Z
+theorem carlson_deps_gen :
+    Gen.Carlson.rfDep = [[-1, -1]] ∧ Gen.Carlson.rdDep = [[-1 / 3, -1 / 3]] ∧ Gen.Carlson.rjDep = [[-1 / 2, -1 / 2, -1 / 2]] :=
+  Proofs.CarlsonGen.deps
+/-- every tolerance, trip cap and `num_` of the source is the one of the model -/
+theorem carlson_tolerances_gen :
+    (tolRF : ℝ) ^ Gen.Carlson.tolRFpow = (Gen.Carlson.tolRFcoef : ℝ) * RealX.eps ∧
+    (tolRD : ℝ) ^ Gen.Carlson.tolRDpow = (Gen.Carlson.tolRDcoef : ℝ) * RealX.eps ∧
+    (tolRD : ℝ) ^ Gen.Carlson.tolRJpow = (Gen.Carlson.tolRJcoef : ℝ) * RealX.eps ∧
+    (tolRG0 : ℝ) = (Gen.Carlson.tolRF2fac : ℝ) * √((Gen.Carlson.tolRF2eps : ℝ) * RealX.eps) ∧
+    (tolRG0 : ℝ) = (Gen.Carlson.tolRG2fac : ℝ) * √((Gen.Carlson.tolRG2eps : ℝ) * RealX.eps) ∧
+    (tolJAC : ℝ) = (Gen.Carlson.tolJACSncndnfac : ℝ) * √((Gen.Carlson.tolJACSncndneps : ℝ) * RealX.eps) ∧
+    (tolJAC : ℝ) = (Gen.Carlson.tolJACEinvfac : ℝ) * √((Gen.Carlson.tolJACEinveps : ℝ) * RealX.eps) ∧
+    Gen.Carlson.tolJACamExp = 3 / 4 ∧ (tolJACam : ℝ) ^ 4 = RealX.eps ^ 3 ∧
+    Gen.Carlson.rf2Trips = trips ∧ Gen.Carlson.rg2Trips = trips ∧ Gen.Carlson.num = num := Proofs.CarlsonGen.tolerances
 
 /-- the Horner form in `RF` is DLMF 19.36.1 -/
 theorem rf_tail (E2 E3 : ℝ) :
-    rfTail E2 E3 = 240240 * (1 - E2 / 10 + E3 / 14 + E2 ^ 2 / 24 - 3 * E2 * E3 / 44 - 5 * E2 ^ 3 / 208 + 3 * E3 ^ 2 / 104 + E2 ^ 2 * E3 / 16) := by
-  unfold rfTail; simp only [lit_real]; push_cast; ring
+    Elliptic.rfTail E2 E3 = 240240 * (1 - E2 / 10 + E3 / 14 + E2 ^ 2 / 24 - 3 * E2 * E3 / 44 - 5 * E2 ^ 3 / 208 + 3 * E3 ^ 2 / 104 + E2 ^ 2 * E3 / 16) := by
+  unfold Elliptic.rfTail; simp only [lit_real]; push_cast; ring
 
 /-- the Horner form in `RD` and `RJ` is DLMF 19.36.2 -/
 theorem rj_tail (E2 E3 E4 E5 : ℝ) :
-    rjTail E2 E3 E4 E5 = 4084080 * (1 - 3 * E2 / 14 + E3 / 6 + 9 * E2 ^ 2 / 88 - 3 * E4 / 22 - 9 * E2 * E3 / 52 + 3 * E5 / 26
+    Elliptic.rjTail E2 E3 E4 E5 = 4084080 * (1 - 3 * E2 / 14 + E3 / 6 + 9 * E2 ^ 2 / 88 - 3 * E4 / 22 - 9 * E2 * E3 / 52 + 3 * E5 / 26
       - E2 ^ 3 / 16 + 3 * E3 ^ 2 / 40 + 3 * E2 * E4 / 20 + 45 * E2 ^ 2 * E3 / 272 - 9 * (E3 * E4 + E2 * E5) / 68) := by
-  unfold rjTail; simp only [lit_real]; push_cast; ring
+  unfold Elliptic.rjTail; simp only [lit_real]; push_cast; ring
 
-/-- the symmetric functions used by `RF`: with `Z = −(X+Y)`, `E2 = XY − Z²` and `E3 = XYZ` are the elementary symmetric
-    polynomials `XY + YZ + ZX` and `XYZ` -/
-theorem rf_symmetric (X Y : ℝ) : X * Y - (-(X + Y)) * (-(X + Y)) = X * Y + Y * (-(X + Y)) + (-(X + Y)) * X := by ring
+/-! ### Carlson's duplication loops -/
+
+theorem carlson_tolRF : (tolRF : ℝ) ^ 8 = 3 / 100 * (1 / 2 ^ 52) ∧ (0 : ℝ) < tolRF :=
+  Proofs.Carlson.tolRF_pow
+
+theorem carlson_tolRD : (tolRD : ℝ) ^ 8 = 1 / 500 * (1 / 2 ^ 52) ∧ (0 : ℝ) < tolRD :=
+  Proofs.Carlson.tolRD_pow
+
+/-- `x + λ = (√x + √y)(√x + √z)` and cyclically: the duplicated arguments are positive unless two arguments vanish -/
+theorem carlson_lam_factor (x y z : ℝ) (hx : 0 ≤ x) (hy : 0 ≤ y) (hz : 0 ≤ z) :
+    x + lam x y z = (√x + √y) * (√x + √z) ∧ y + lam x y z = (√y + √z) * (√y + √x) ∧
+    z + lam x y z = (√z + √x) * (√z + √y) :=
+  Proofs.Carlson.lam_factor x y z hx hy hz
+
+/-- a trip of `RF`: the deviations from `An` shrink by exactly 4, `mul` grows by 4 -/
+theorem rf_step_deviation (s : Dup ℝ) :
+    (rfStep s).An - (rfStep s).x0 = (s.An - s.x0) / 4 ∧ (rfStep s).An - (rfStep s).y0 = (s.An - s.y0) / 4 ∧
+    (rfStep s).An - (rfStep s).z0 = (s.An - s.z0) / 4 ∧ (rfStep s).mul = s.mul * 4 :=
+  Proofs.Carlson.rfStep_dev s
+
+/-- a trip of `RF` keeps `An` the mean of the arguments -/
+theorem rf_step_mean (s : Dup ℝ) (h : s.An = (s.x0 + s.y0 + s.z0) / 3) :
+    (rfStep s).An = ((rfStep s).x0 + (rfStep s).y0 + (rfStep s).z0) / 3 :=
+  Proofs.Carlson.rfStep_mean s h
+
+/-- a trip of `RF` maps non-negative arguments, at most one of them zero, to positive ones -/
+theorem rf_step_positive (s : Dup ℝ) (hx : 0 ≤ s.x0) (hy : 0 ≤ s.y0) (hz : 0 ≤ s.z0)
+    (h2 : 0 < s.x0 + s.y0 ∧ 0 < s.y0 + s.z0 ∧ 0 < s.z0 + s.x0) :
+    0 < (rfStep s).x0 ∧ 0 < (rfStep s).y0 ∧ 0 < (rfStep s).z0 :=
+  Proofs.Carlson.rfStep_pos s hx hy hz h2
+
+/-- the invariant of the loop, for every trip budget: after the loop `mul · (An − x0)` is what it was before -/
+theorem rf_loop_invariant (Q : ℝ) (n : ℕ) (s : Dup ℝ) :
+    (rfLoop Q n s).mul * ((rfLoop Q n s).An - (rfLoop Q n s).x0) = s.mul * (s.An - s.x0) ∧
+    (rfLoop Q n s).mul * ((rfLoop Q n s).An - (rfLoop Q n s).y0) = s.mul * (s.An - s.y0) ∧
+    (rfLoop Q n s).mul * ((rfLoop Q n s).An - (rfLoop Q n s).z0) = s.mul * (s.An - s.z0) ∧
+    ∃ m : ℕ, m ≤ n ∧ (rfLoop Q n s).mul = s.mul * 4 ^ m :=
+  Proofs.Carlson.rfLoop_inv Q n s
+
+theorem rf_loop_mean (Q : ℝ) (n : ℕ) (s : Dup ℝ) (h : s.An = (s.x0 + s.y0 + s.z0) / 3) :
+    (rfLoop Q n s).An = ((rfLoop Q n s).x0 + (rfLoop Q n s).y0 + (rfLoop Q n s).z0) / 3 :=
+  Proofs.Carlson.rfLoop_mean Q n s h
+
+theorem rf_loop_positive (Q : ℝ) (n : ℕ) (s : Dup ℝ) (hx : 0 ≤ s.x0) (hy : 0 ≤ s.y0) (hz : 0 ≤ s.z0)
+    (h2 : 0 < s.x0 + s.y0 ∧ 0 < s.y0 + s.z0 ∧ 0 < s.z0 + s.x0) :
+    0 ≤ (rfLoop Q n s).x0 ∧ 0 ≤ (rfLoop Q n s).y0 ∧ 0 ≤ (rfLoop Q n s).z0 ∧
+    0 < (rfLoop Q n s).x0 + (rfLoop Q n s).y0 ∧ 0 < (rfLoop Q n s).y0 + (rfLoop Q n s).z0 ∧
+    0 < (rfLoop Q n s).z0 + (rfLoop Q n s).x0 :=
+  Proofs.Carlson.rfLoop_pos Q n s hx hy hz h2
+
+/-- the loop ends either because its test failed or because the trip budget is used up -/
+theorem rf_loop_exit (Q : ℝ) (n : ℕ) (s : Dup ℝ) :
+    ¬ ((rfLoop Q n s).mul * |(rfLoop Q n s).An| ≤ Q) ∨ (rfLoop Q n s).mul = s.mul * 4 ^ n :=
+  Proofs.Carlson.rfLoop_exit Q n s
+
+/-- `X = (A0 − x)/(mul·An)` computed from the original arguments is the relative deviation `(An − x0)/An` of the current
+    ones (for `RF`: `A0 = (x+y+z)/3`, `mul = 1` initially) -/
+theorem rf_deviation_is_relative (x y z : ℝ) (hA : (rfRun x y z).An ≠ 0) :
+    let A0 := (x + y + z) / 3
+    let s := rfRun x y z
+    (A0 - x) / (s.mul * s.An) = (s.An - s.x0) / s.An ∧ (A0 - y) / (s.mul * s.An) = (s.An - s.y0) / s.An ∧
+    -((A0 - x) / (s.mul * s.An) + (A0 - y) / (s.mul * s.An)) = (s.An - s.z0) / s.An :=
+  Proofs.Carlson.rf_X_eq x y z hA
+
+/-- if the loop of `RF` ended through its test (not through the trip cap), the three relative deviations are below
+    `tolRF`, hence their eighth powers below `3ε/100` -/
+theorem rf_exit_bound (x y z : ℝ)
+    (hexit : ¬ ((rfRun x y z).mul * |(rfRun x y z).An| ≤ rfQ x y z)) :
+    let A0 := (x + y + z) / 3
+    let s := rfRun x y z
+    |(A0 - x) / (s.mul * s.An)| < tolRF ∧ |(A0 - y) / (s.mul * s.An)| < tolRF ∧ |(A0 - z) / (s.mul * s.An)| < tolRF :=
+  Proofs.Carlson.rf_exit_bound x y z hexit
+
+/-- the eighth-power form of `rf_exit_bound`: each relative deviation satisfies `|X|⁸ < 3ε/100` -/
+theorem rf_exit_bound_pow8 (x y z : ℝ)
+    (hexit : ¬ ((rfRun x y z).mul * |(rfRun x y z).An| ≤ rfQ x y z)) :
+    let A0 := (x + y + z) / 3
+    let s := rfRun x y z
+    |(A0 - x) / (s.mul * s.An)| ^ 8 < 3 / 100 * (1 / 2 ^ 52) ∧ |(A0 - y) / (s.mul * s.An)| ^ 8 < 3 / 100 * (1 / 2 ^ 52) ∧
+    |(A0 - z) / (s.mul * s.An)| ^ 8 < 3 / 100 * (1 / 2 ^ 52) :=
+  Proofs.Carlson.rf_exit_bound_pow8 x y z hexit
+
+/-- the model of `RF(x, y, z)` is symmetric under every permutation of its arguments (the code is not syntactically
+    symmetric: `Z` is formed as `−(X+Y)`) -/
+theorem rf_symmetric (x y z : ℝ) : rf3 x y z = rf3 y x z ∧ rf3 x y z = rf3 x z y :=
+  Proofs.Carlson.rf3_symm x y z
+
+theorem rd_step_deviation (s : Dup ℝ) (sm : ℝ) :
+    (rdStep s sm).1.An - (rdStep s sm).1.x0 = (s.An - s.x0) / 4 ∧ (rdStep s sm).1.An - (rdStep s sm).1.y0 = (s.An - s.y0) / 4 ∧
+    (rdStep s sm).1.An - (rdStep s sm).1.z0 = (s.An - s.z0) / 4 ∧ (rdStep s sm).1.mul = s.mul * 4 :=
+  Proofs.Carlson.rdStep_dev s sm
+
+/-- a trip of `RD` keeps `An` the weighted mean `(x + y + 3z)/5` -/
+theorem rd_step_mean (s : Dup ℝ) (sm : ℝ) (h : s.An = (s.x0 + s.y0 + 3 * s.z0) / 5) :
+    (rdStep s sm).1.An = ((rdStep s sm).1.x0 + (rdStep s sm).1.y0 + 3 * (rdStep s sm).1.z0) / 5 :=
+  Proofs.Carlson.rdStep_mean s sm h
+
+theorem rd_loop_invariant (Q : ℝ) (n : ℕ) (s : Dup ℝ) (sm : ℝ) :
+    let t := (rdLoop Q n s sm).1
+    t.mul * (t.An - t.x0) = s.mul * (s.An - s.x0) ∧ t.mul * (t.An - t.y0) = s.mul * (s.An - s.y0) ∧
+    t.mul * (t.An - t.z0) = s.mul * (s.An - s.z0) ∧ (s.An = (s.x0 + s.y0 + 3 * s.z0) / 5 → t.An = (t.x0 + t.y0 + 3 * t.z0) / 5) :=
+  Proofs.Carlson.rdLoop_inv Q n s sm
+
+/-- the model of `RD(x, y, z)` is symmetric in its first two arguments -/
+theorem rd_symmetric (x y z : ℝ) : rd x y z = rd y x z :=
+  Proofs.Carlson.rd_symm x y z
+
+/-- `E₂ … E₅` of `RD` are the elementary symmetric functions of the five deviations `X, Y, Z, Z, Z` (`Z = −(X+Y)/3`) -/
+theorem rd_elementary_symmetric (X Y : ℝ) :
+    let Z := -(X + Y) / 3
+    rdE X Y = (X * Y + 3 * (X + Y) * Z + 3 * Z ^ 2,
+               3 * X * Y * Z + 3 * (X + Y) * Z ^ 2 + Z ^ 3,
+               3 * X * Y * Z ^ 2 + (X + Y) * Z ^ 3,
+               X * Y * Z ^ 3) :=
+  Proofs.Carlson.rdE_symmetric X Y
+
+theorem rj_step_deviation (d : ℝ) (s : DupJ ℝ) :
+    (rjStep d s).An - (rjStep d s).x0 = (s.An - s.x0) / 4 ∧ (rjStep d s).An - (rjStep d s).y0 = (s.An - s.y0) / 4 ∧
+    (rjStep d s).An - (rjStep d s).z0 = (s.An - s.z0) / 4 ∧ (rjStep d s).An - (rjStep d s).p0 = (s.An - s.p0) / 4 ∧
+    (rjStep d s).mul = s.mul * 4 ∧ (rjStep d s).mul3 = s.mul3 * 64 :=
+  Proofs.Carlson.rjStep_dev d s
+
+/-- a trip of `RJ` keeps `An` the weighted mean `(x + y + z + 2p)/5` -/
+theorem rj_step_mean (d : ℝ) (s : DupJ ℝ) (h : s.An = (s.x0 + s.y0 + s.z0 + 2 * s.p0) / 5) :
+    (rjStep d s).An = ((rjStep d s).x0 + (rjStep d s).y0 + (rjStep d s).z0 + 2 * (rjStep d s).p0) / 5 :=
+  Proofs.Carlson.rjStep_mean d s h
+
+theorem rj_loop_invariant (Q d : ℝ) (n : ℕ) (s : DupJ ℝ) :
+    let t := rjLoop Q d n s
+    t.mul * (t.An - t.x0) = s.mul * (s.An - s.x0) ∧ t.mul * (t.An - t.y0) = s.mul * (s.An - s.y0) ∧
+    t.mul * (t.An - t.z0) = s.mul * (s.An - s.z0) ∧ t.mul * (t.An - t.p0) = s.mul * (s.An - s.p0) ∧
+    (s.mul3 = s.mul ^ 3 → t.mul3 = t.mul ^ 3) ∧
+    (s.An = (s.x0 + s.y0 + s.z0 + 2 * s.p0) / 5 → t.An = (t.x0 + t.y0 + t.z0 + 2 * t.p0) / 5) :=
+  Proofs.Carlson.rjLoop_inv Q d n s
+
+/-- the model of `RJ(x, y, z, p)` is symmetric under every permutation of its first three arguments -/
+theorem rj_symmetric (x y z p : ℝ) : rj x y z p = rj y x z p ∧ rj x y z p = rj x z y p :=
+  Proofs.Carlson.rj_symm x y z p
+
+/-- `E₂ … E₅` of `RJ` are the elementary symmetric functions of the five deviations `X, Y, Z, P, P` (`P = −(X+Y+Z)/2`) -/
+theorem rj_elementary_symmetric (X Y Z : ℝ) :
+    let P := -(X + Y + Z) / 2
+    rjE X Y Z = (X * Y + X * Z + Y * Z + 2 * (X + Y + Z) * P + P ^ 2,
+                 X * Y * Z + 2 * (X * Y + X * Z + Y * Z) * P + (X + Y + Z) * P ^ 2,
+                 2 * X * Y * Z * P + (X * Y + X * Z + Y * Z) * P ^ 2,
+                 X * Y * Z * P ^ 2) :=
+  Proofs.Carlson.rjE_symmetric X Y Z
+
+/-- in `RJ` the quantity `d0 = (√p+√x)(√p+√y)(√p+√z)` of a trip satisfies `δₙ₊₁ = δₙ/64` for
+    `δ = (p−x)(p−y)(p−z)` of the current arguments: this is why `e0 = δ/(mul3·d0²)` uses the *original* `δ` -/
+theorem rj_step_delta (d : ℝ) (s : DupJ ℝ) :
+    ((rjStep d s).p0 - (rjStep d s).x0) * ((rjStep d s).p0 - (rjStep d s).y0) * ((rjStep d s).p0 - (rjStep d s).z0) =
+      (s.p0 - s.x0) * (s.p0 - s.y0) * (s.p0 - s.z0) / 64 :=
+  Proofs.Carlson.rjStep_delta d s
+
+/-- after the permutation of `RG(x, y, z)` the third argument lies between the other two, and the arguments are the same
+    up to order -/
+theorem rg_median (x y z : ℝ) :
+    let r := rgPerm x y z
+    (r.1 - r.2.2) * (r.2.1 - r.2.2) ≤ 0 ∧
+    ((r = (x, y, z)) ∨ (r = (z, y, x)) ∨ (r = (x, z, y))) :=
+  Proofs.Carlson.rgPerm_median x y z
+
+/-- the circular closed form (`0 < x < y`) satisfies the degenerate duplication theorem
+    `R_C(x, y) = 2 R_C(x + λ, y + λ)`, `λ = y + 2√x√y` -/
+theorem rc_duplication_circular (x y : ℝ) (hx : 0 < x) (hxy : x < y) :
+    rc x y = 2 * rc (x + (y + 2 * √x * √y)) (y + (y + 2 * √x * √y)) :=
+  Proofs.Carlson.rc_dup_atan x y hx hxy
+
+/-- the hyperbolic closed form (`0 < y < x`) satisfies it too -/
+theorem rc_duplication_hyperbolic (x y : ℝ) (hy : 0 < y) (hxy : y < x) :
+    rc x y = 2 * rc (x + (y + 2 * √x * √y)) (y + (y + 2 * √x * √y)) :=
+  Proofs.Carlson.rc_dup_asinh x y hy hxy
+
+/-- and so does the value on the diagonal -/
+theorem rc_duplication_diagonal (y : ℝ) (hy : 0 < y) : rc y y = 2 * rc (y + (y + 2 * √y * √y)) (y + (y + 2 * √y * √y)) :=
+  Proofs.Carlson.rc_dup_diag y hy
+
+/-! ### `sncndn`, the frame of the incomplete integrals, the period handling, `Ed`, `Einv` -/
+
+/-- one descending Landen step (one pass through the body of `while (l--)`) preserves the relation -/
+theorem landen_step (a b c d : ℝ) (ha : 0 < a) (hb : 0 < b)
+    (h : LandenInv ((a + b) / 2) (b * a) c d) :
+    let α := c / ((a + b) / 2)
+    LandenInv a (b ^ 2) (c * d) ((b + α * c) / (a + α * c)) :=
+  Proofs.Jacobi.landen_step a b c d ha hb h
+
+/-- the descending loop preserves the relation along an AGM chain of any depth -/
+theorem landen_descent (st : List (ℝ × ℝ)) (aN bN2 c d : ℝ) (hch : IsChain st aN bN2) (haN : 0 < aN)
+    (h : LandenInv aN bN2 c d) :
+    LandenInv (outer st aN bN2).1 (outer st aN bN2).2 (landenDesc st (c / aN) c d).1 (landenDesc st (c / aN) c d).2 :=
+  Proofs.Jacobi.landenDesc_inv st aN bN2 c d hch haN h
+
+/-- the ascending loop produces an AGM chain: on success the stack is a chain whose next inner term is
+    `(c, b_L·a_L)` with `c = (a_L + b_L)/2`, its outermost level is the one the loop started from, and the exit test holds
+    at the innermost level -/
+theorem agm_ascent_chain (n : ℕ) (a mc : ℝ) (st st' : List (ℝ × ℝ)) (c : ℝ) (ha : 0 < a) (hmc : 0 < mc)
+    (hst : IsChain st a mc) (h : agmAsc n a mc st = some (st', c)) :
+    ∃ aL bL rest, st' = (aL, bL) :: rest ∧ c = (aL + bL) / 2 ∧ IsChain st' c (bL * aL) ∧ 0 < c ∧
+      outer st' c (bL * aL) = outer st a mc ∧ |aL - bL| ≤ tolJAC * aL :=
+  Proofs.Jacobi.agmAsc_chain n a mc st st' c ha hmc hst h
+
+/-- `sn² + cn² = 1` for every parameter and argument -/
+theorem sncndn_unit_circle (e : Par ℝ) (x sn cn dn : ℝ) (h : sncndn e x = some (sn, cn, dn)) : sn ^ 2 + cn ^ 2 = 1 :=
+  Proofs.Jacobi.sncndn_unit e x sn cn dn h
+
+/-- from any seed `(c, d)` that satisfies the relation at the innermost level, the descending loop followed by the final
+    normalisation `sn = 1/√(c²+1)`, `cn = c·sn` gives `dn² = cn² + k'² sn²` exactly, for every depth of the AGM stack
+    produced by the ascending loop -/
+theorem sncndn_dn_identity (kp2 : ℝ) (hk : 0 < kp2) (st rest : List (ℝ × ℝ)) (c0 aL bL cs d : ℝ)
+    (hasc : agmAsc num 1 kp2 [] = some (st, c0)) (hst : st = (aL, bL) :: rest) (hinv : LandenInv c0 (bL * aL) cs d) :
+    let r := landenDesc st (cs / c0) cs d
+    let sn := 1 / √(r.1 * r.1 + 1)
+    r.2 ^ 2 = (r.1 * sn) ^ 2 + kp2 * sn ^ 2 :=
+  Proofs.Jacobi.sncndn_dn_of_seed kp2 hk st rest c0 aL bL cs d hasc hst hinv
+
+/-- the seed `dn = 1` of the code misses the relation at the innermost level by exactly `((a_L − b_L)/2)²` -/
+theorem sncndn_seed_defect (aL bL c : ℝ) :
+    1 ^ 2 * (c ^ 2 + ((aL + bL) / 2) ^ 2) - (c ^ 2 + bL * aL) = ((aL - bL) / 2) ^ 2 :=
+  Proofs.Jacobi.seed_defect aL bL c
+
+/-- for `k² = 1` (`k'² = 0`) the closed forms satisfy both identities -/
+theorem sncndn_k1 (e : Par ℝ) (hk : e.kp2 = 0) (x sn cn dn : ℝ) (h : sncndn e x = some (sn, cn, dn)) :
+    sn ^ 2 + cn ^ 2 = 1 ∧ dn ^ 2 = cn ^ 2 + e.kp2 * sn ^ 2 :=
+  Proofs.Jacobi.sncndn_k1 e hk x sn cn dn h
+
+/-- oddness in `sn`, for every first-quadrant kernel even in `sn` -/
+theorem wrap_odd (c : ℝ) (g : ℝ → ℝ → ℝ) (hs : ∀ s t, g (-s) t = g s t) (sn cn : ℝ) (hsn : sn ≠ 0) :
+    wrap c (g (-sn) cn) (-sn) cn = - wrap c (g sn cn) sn cn :=
+  Proofs.Jacobi.wrap_odd c g hs sn cn hsn
+
+/-- reflection about `π/2`, for every kernel even in `cn` with values in `[0, 2c]` -/
+theorem wrap_reflect (c : ℝ) (g : ℝ → ℝ → ℝ) (hc : ∀ s t, g s (-t) = g s t) (sn cn : ℝ) (hsn : 0 < sn) (hcn : 0 < cn)
+    (h0 : 0 ≤ g sn cn) (h2 : g sn cn ≤ 2 * c) :
+    wrap c (g sn (-cn)) sn (-cn) = 2 * c - wrap c (g sn cn) sn cn :=
+  Proofs.Jacobi.wrap_reflect c g hc sn cn hsn hcn h0 h2
+
+/-- the six Carlson kernels are even in `sn` and in `cn` -/
+theorem core_even (e : Par ℝ) (k : Kind) (sn cn dn : ℝ) :
+    core e k (-sn) cn dn = core e k sn cn dn ∧ core e k sn (-cn) dn = core e k sn cn dn :=
+  Proofs.Jacobi.core_even e k sn cn dn
+
+theorem delta_even (e : Par ℝ) (sn cn : ℝ) : delta e (-sn) cn = delta e sn cn ∧ delta e sn (-cn) = delta e sn cn :=
+  Proofs.Jacobi.delta_even e sn cn
+
+/-- `F(−sn, cn, dn) = −F(sn, cn, dn)` and the same for `E, D, Pi, G, H` -/
+theorem incomplete_odd (e : Par ℝ) (k : Kind) (sn cn dn : ℝ) (hsn : sn ≠ 0) : inc e k (-sn) cn dn = - inc e k sn cn dn :=
+  Proofs.Jacobi.inc_odd e k sn cn dn hsn
+
+/-- `X(sn, −cn, dn) = 2X() − X(sn, cn, dn)` in the first quadrant, when the Carlson expression lies in `[0, 2X()]` -/
+theorem incomplete_reflect (e : Par ℝ) (k : Kind) (sn cn dn : ℝ) (hsn : 0 < sn) (hcn : 0 < cn)
+    (h0 : 0 ≤ core e k sn cn dn) (h2 : core e k sn cn dn ≤ 2 * comp e k) :
+    inc e k sn (-cn) dn = 2 * comp e k - inc e k sn cn dn :=
+  Proofs.Jacobi.inc_reflect e k sn cn dn hsn hcn h0 h2
+
+/-- the periodic part has period `π` for every `X` whatsoever -/
+theorem periodic_part_period (X : ℝ → ℝ → ℝ → ℝ) (c sn cn dn : ℝ) (hcn : cn ≠ 0) :
+    deltaWith X c (-sn) (-cn) dn = deltaWith X c sn cn dn :=
+  Proofs.Jacobi.deltaWith_neg X c sn cn dn hcn
+
+/-- beyond `±π` on both sides a half turn adds `2c`, for every `X` whatsoever (`cos φ ≠ 0`) -/
+theorem period_far (e : Par ℝ) (X : ℝ → ℝ → ℝ → ℝ) (c φ : ℝ) (h1 : π ≤ |φ|) (h2 : π ≤ |φ + π|) (hcos : cos φ ≠ 0) :
+    phiWith e X c (φ + π) = phiWith e X c φ + 2 * c :=
+  Proofs.Jacobi.phiWith_period_far e X c φ h1 h2 hcos
+
+/-- `X(φ + π) = X(φ) + 2c` for every `φ`, through all the branches of the period handling, for the frame `wrap` around
+    every kernel `g` that is even in `sn`, `cn` and takes values in `[0, 2c]`, `c > 0` -/
+theorem period_every_kernel (e : Par ℝ) (c : ℝ) (g : ℝ → ℝ → ℝ → ℝ) (hc : 0 < c)
+    (hs : ∀ s t d, g (-s) t d = g s t d) (ht : ∀ s t d, g s (-t) d = g s t d)
+    (hg : ∀ s t d, 0 ≤ g s t d ∧ g s t d ≤ 2 * c) (φ : ℝ) :
+    phiWith e (fun sn cn dn => wrap c (g sn cn dn) sn cn) c (φ + π) =
+      phiWith e (fun sn cn dn => wrap c (g sn cn dn) sn cn) c φ + 2 * c :=
+  Proofs.Jacobi.phiWith_period e c g hc hs ht hg φ
+
+/-- the same for the six integrals of the model -/
+theorem incomplete_period (e : Par ℝ) (k : Kind) (hc : 0 < comp e k)
+    (hg : ∀ s t d, 0 ≤ core e k s t d ∧ core e k s t d ≤ 2 * comp e k) (φ : ℝ) :
+    phiWith e (inc e k) (comp e k) (φ + π) = phiWith e (inc e k) (comp e k) φ + 2 * comp e k :=
+  Proofs.Jacobi.incPhi_period e k hc hg φ
+
+/-- `incPhi` is `phiWith` outside the shortcuts for `k² = 0` and `k² = 1` -/
+theorem incPhi_general_branch (e : Par ℝ) (k : Kind) (hk : e.k2 ≠ 0) (hkp : e.kp2 ≠ 0) (φ : ℝ) :
+    incPhi e k φ = phiWith e (inc e k) (comp e k) φ :=
+  Proofs.Jacobi.incPhi_eq_phiWith e k hk hkp φ
+
+/-- `Ed`: one more turn adds `4E` -/
+theorem ed_turn (e : Par ℝ) (n sn cn : ℝ) : edWith e (n + 1) sn cn = edWith e n sn cn + 4 * e.eEc :=
+  Proofs.Jacobi.edWith_turn e n sn cn
+
+theorem einv_reduce_shift (e : Par ℝ) (x : ℝ) (hE : e.eEc ≠ 0) :
+    einvReduce e (x + 2 * e.eEc) = ((einvReduce e x).1 + 1, (einvReduce e x).2) :=
+  Proofs.Jacobi.einvReduce_shift e x hE
+
+/-- `Einv(x + 2E) = Einv(x) + π` -/
+theorem einv_period (e : Par ℝ) (x : ℝ) (hE : e.eEc ≠ 0) : einv e (x + 2 * e.eEc) = (einv e x).map (· + π) :=
+  Proofs.Jacobi.einv_period e x hE
+
+/-- the reduced argument lies in `[−E, E)` -/
+theorem einv_reduce_range (e : Par ℝ) (x : ℝ) (hE : 0 < e.eEc) :
+    -e.eEc ≤ (einvReduce e x).2 ∧ (einvReduce e x).2 < e.eEc :=
+  Proofs.Jacobi.einvReduce_range e x hE
+
+/-- when the Newton loop of `Einv` ends, the last iterate `φ` satisfies `|E(φ) − x| ≤ tolJAC·min(1, |result|)·Δ(φ)` (the
+    stopping test is relative to the angle for small angles, /repo 84b53d7), and the returned value is `φ` minus a correction
+    of at most `tolJAC·min(1, |result|)`; in particular a fixed point (`correction = 0`) solves `E(φ) = x` -/
+theorem einv_newton_residual (e : Par ℝ) (x : ℝ) (n : ℕ) (φ0 r : ℝ) (h : einvLoop e x n φ0 = some r) :
+    ∃ φ : ℝ,
+      let dn := delta e (sin φ) (cos φ)
+      let err := (inc e .E (sin φ) (cos φ) dn - x) / dn
+      r = φ - err ∧ |err| ≤ tolJAC * min 1 |r| ∧ |err| ≤ tolJAC ∧
+      (dn ≠ 0 → |inc e .E (sin φ) (cos φ) dn - x| ≤ tolJAC * min 1 |r| * |dn|) ∧
+      (dn ≠ 0 → r = φ → inc e .E (sin φ) (cos φ) dn = x) :=
+  Proofs.Jacobi.einvLoop_residual e x n φ0 r h
+
+/-- `deltaEinv` has period `π` -/
+theorem deltaEinv_period (e : Par ℝ) (stau ctau : ℝ) (hc : ctau ≠ 0) : deltaEinv e (-stau) (-ctau) = deltaEinv e stau ctau :=
+  Proofs.Jacobi.deltaEinv_neg e stau ctau hc
+
+/-! ### non-vacuity: concrete instances of the hypotheses used above -/
+
+/-- `rf_exit_bound`: on equal arguments the loop of `RF` ends through its test at once -/
+example : ¬ ((rfRun (1 : ℝ) 1 1).mul * |(rfRun (1 : ℝ) 1 1).An| ≤ rfQ (1 : ℝ) 1 1) := by
+  have hQ : rfQ (1 : ℝ) 1 1 = 0 := by
+    unfold rfQ max3; simp only [lit_real, abs_real]; norm_num [RealLike.max]
+  have hR : rfRun (1 : ℝ) 1 1 = ⟨(1 + 1 + 1) / 3, 1, 1, 1, 1⟩ := by
+    unfold rfRun; rw [hQ]; unfold trips; simp only [rfLoop, lit_real, leb_real, abs_real]; norm_num
+  rw [hR, hQ]; norm_num
+
+/-- `agm_ascent_chain`, `sncndn_dn_identity`: the ascending AGM loop succeeds (here for `k'² = 1`) -/
+example : agmAsc num (1 : ℝ) 1 [] = some ([((1 : ℝ), (1 : ℝ))], 1) := by
+  have ht : (0 : ℝ) ≤ tolJAC := by unfold tolJAC; simp only [sqrt_real]; exact Real.sqrt_nonneg _
+  show agmAsc (24 + 1) (1 : ℝ) 1 [] = _
+  unfold agmAsc
+  simp only [sqrt_real, Real.sqrt_one, lit_real, ltb_real, abs_real]
+  norm_num [ht]
+example : LandenInv (1 : ℝ) (1 * 1) 2 1 := by unfold LandenInv; norm_num
+/-- `landen_step`: a non-degenerate level (`a = 4`, `b = 1`) with a seed satisfying the relation -/
+example : LandenInv ((4 + 1) / 2 : ℝ) (1 * 4) 0 (4 / 5) := by unfold LandenInv; norm_num
+/-- `sncndn_unit_circle`, `sncndn_k1`: `sncndn` returns a value (here the closed forms for `k² = 1`) -/
+example (x : ℝ) : sncndn (⟨1, 0, 0, 1, 1, 0, 1, 0, 0, 1, 1⟩ : Par ℝ) x = some (Real.tanh x, 1 / Real.cosh x, 1 / Real.cosh x) := by
+  unfold sncndn; simp [eqb_real, lit_real]
+/-- `period_every_kernel`, `wrap_reflect`: a kernel satisfying the contract -/
+example : (0 : ℝ) < 1 ∧ ∀ s t d : ℝ, (0 : ℝ) ≤ (fun _ _ _ => (1 / 2 : ℝ)) s t d ∧ (fun _ _ _ => (1 / 2 : ℝ)) s t d ≤ 2 * 1 := by
+  refine ⟨by norm_num, fun _ _ _ => ⟨by norm_num, by norm_num⟩⟩
+/-- `einv_newton_residual`: the Newton loop of `Einv` returns (here: started at a solution) -/
+example (e : Par ℝ) (φ0 : ℝ) :
+    einvLoop e (inc e .E (Real.sin φ0) (Real.cos φ0) (delta e (Real.sin φ0) (Real.cos φ0))) 1 φ0 = some φ0 := by
+  have ht : (0 : ℝ) ≤ tolJAC := by unfold tolJAC; simp only [sqrt_real]; exact Real.sqrt_nonneg _
+  have hm : (0 : ℝ) ≤ tolJAC * RealLike.min 1 |φ0| := mul_nonneg ht (le_min zero_le_one (abs_nonneg _))
+  unfold einvLoop
+  simp only [sin_real, cos_real, sub_self, zero_div, abs_real, abs_zero, ltb_real, sub_zero, lit_real, Nat.cast_one]
+  simp [not_lt.mpr hm]
+example : (0 : ℝ) < 1 ∧ (1 : ℝ) < 2 := by norm_num
+
+end elliptic
+
+/-! ## Part 4: `AuxAngle`, exact `AuxLatitude`, `Ellipsoid` -/
+
+section auxexact
+open GeoVerif.Elliptic GeoVerif.AuxExact
+
+/-- `normalized()` puts the pair on the unit circle without changing its direction -/
+theorem auxangle_normalized (p : Ang ℝ) (h0 : p.x ≠ 0 ∨ p.y ≠ 0) (hb : ¬ ((maxHalf : ℝ) < |p.y| ∧ (maxHalf : ℝ) < |p.x|)) :
+    p.normalized.y ^ 2 + p.normalized.x ^ 2 = 1 ∧
+    p.normalized.y = p.y / √(p.y ^ 2 + p.x ^ 2) ∧ p.normalized.x = p.x / √(p.y ^ 2 + p.x ^ 2) :=
+  Proofs.AuxExactP.normalized_spec p h0 hb
+
+/-- a pair on the unit circle is its own normalisation -/
+theorem auxangle_normalized_idem (p : Ang ℝ) (h : p.y ^ 2 + p.x ^ 2 = 1) : p.normalized = p :=
+  Proofs.AuxExactP.normalized_of_unit p h
+
+/-- `copyquadrant` keeps the magnitudes and takes the signs of the other pair -/
+theorem auxangle_copyquadrant (p q : Ang ℝ) :
+    |(p.copyquadrant q).y| = |p.y| ∧ |(p.copyquadrant q).x| = |p.x| ∧
+    (q.y < 0 → (p.copyquadrant q).y ≤ 0) ∧ (0 ≤ q.y → 0 ≤ (p.copyquadrant q).y) ∧
+    (q.x < 0 → (p.copyquadrant q).x ≤ 0) ∧ (0 ≤ q.x → 0 ≤ (p.copyquadrant q).x) :=
+  Proofs.AuxExactP.copyquadrant_spec p q
+
+/-- `operator+=` is the addition of angles -/
+theorem auxangle_add (a b : ℝ) (hb : Real.sin b / Real.cos b ≠ 0) :
+    (Ang.mk (Real.sin a) (Real.cos a)).add ⟨Real.sin b, Real.cos b⟩ = ⟨Real.sin (a + b), Real.cos (a + b)⟩ :=
+  Proofs.AuxExactP.add_angles a b hb
+
+/-- adding an angle with zero tangent changes nothing (so that the signs of zero are preserved) -/
+theorem auxangle_add_zero (p q : Ang ℝ) (h : q.y / q.x = 0) : p.add q = p :=
+  Proofs.AuxExactP.add_zero_tan p q h
+
+theorem auxangle_radians (r : ℝ) (h1 : -π < r) (h2 : r ≤ π) : (Ang.ofRadians r).radians = r :=
+  Proofs.AuxExactP.radians_ofRadians r h1 h2
+
+theorem auxangle_lam (psi : ℝ) : (Ang.ofLam psi).lam = psi :=
+  Proofs.AuxExactP.lam_ofLam psi
+
+theorem auxangle_lamd (d : ℝ) : (Ang.ofLamd d).lamd = d :=
+  Proofs.AuxExactP.lamd_ofLamd d
+
+/-- `degrees()` (`Math::atan2d` with its octant reduction) is the argument of `x + iy` in degrees, in every octant -/
+theorem auxangle_degrees (p : Ang ℝ) : p.degrees * (π / 180) = p.radians :=
+  Proofs.AuxExactP.degrees_eq_radians p
+
+/-- `ind(auxout, auxin)` is a bijection from `[0, AUXNUMBER)²` onto the `AUXNUMBER²` table slots, and `−1` elsewhere
+    (depends on `Gen/AuxSeries.lean`: the enum value `AUXNUMBER` and the length of `ptrs[]`) -/
+theorem ind_bijection :
+    (∀ o i : Int, 0 ≤ o → o < 6 → 0 ≤ i → i < 6 → ind o i = 6 * o + i ∧ 0 ≤ ind o i ∧ ind o i < 36) ∧
+    (∀ o i : Int, ¬ (0 ≤ o ∧ o < 6 ∧ 0 ≤ i ∧ i < 6) → ind o i = -1) ∧
+    (∀ o i o' i' : Int, 0 ≤ ind o i → ind o i = ind o' i' → o = o' ∧ i = i') ∧
+    (∀ k : Int, 0 ≤ k → k < 36 → ind (k / 6) (k % 6) = k) ∧
+    Gen.AuxSeries.ptrs.length = Gen.AuxSeries.AUXNUMBER * Gen.AuxSeries.AUXNUMBER + 1 :=
+  Proofs.AuxExactP.ind_bijection
+
+/-- the members set by `AuxLatitude(a, f)` -/
+theorem auxlat_parameters (a f : ℝ) (hf : f < 1) :
+    let P := AL.mk2 a f
+    P.b = a * (1 - f) ∧ P.fm1 = 1 - f ∧ P.e2 = f * (2 - f) ∧ P.e2m1 = 1 - P.e2 ∧ P.e12 = P.e2 / (1 - P.e2) ∧
+    P.e12p1 = 1 + P.e12 ∧ P.n = f / (2 - f) ∧ P.e ^ 2 = |P.e2| ∧ P.e1 ^ 2 = |P.e12| ∧ P.n2 = P.n ^ 2 ∧ 0 ≤ P.e ∧ 0 ≤ P.e1 :=
+  Proofs.AuxExactP.mk2_params a f hf
+
+/-- `AuxLatitude::axes(a, b)` sets the same members as `AuxLatitude(a, (a − b)/a)` -/
+theorem auxlat_axes (a b : ℝ) (ha : 0 < a) (hb : 0 < b) : AL.axes a b = AL.mk2 a ((a - b) / a) :=
+  Proofs.AuxExactP.axes_eq_mk2 a b ha hb
+
+/-- `tan β = (1 − f) tan φ`, `tan θ = (1 − f)² tan φ` -/
+theorem parametric_geocentric_closed_form (a f : ℝ) (phi : Ang ℝ) :
+    (parametric (AL.mk2 a f) phi).1.tan = (1 - f) * phi.tan ∧ (parametric (AL.mk2 a f) phi).2 = 1 - f ∧
+    (geocentric (AL.mk2 a f) phi).1.tan = (1 - f) ^ 2 * phi.tan ∧ (geocentric (AL.mk2 a f) phi).2 = (1 - f) ^ 2 :=
+  Proofs.AuxExactP.parametric_geocentric a f phi
+
+/-- the exact conversions among φ, β, θ multiply the tangent by a power of `1 − f` -/
+theorem convert_exact_low (a f : ℝ) (hf : f ≠ 1) (i o : Int) (hi : 0 ≤ i ∧ i < 3) (ho : 0 ≤ o ∧ o < 3) (z : Ang ℝ) :
+    (convertExact (AL.mk2 a f) i o z).tan = (1 - f) ^ (o - i) * z.tan ∧ (convertExact (AL.mk2 a f) i o z).x = z.x :=
+  Proofs.AuxExactP.convertExact_low a f hf i o hi ho z
+
+theorem convert_exact_same_oob (P : AL ℝ) (z : Ang ℝ) :
+    (∀ k : Int, 0 ≤ k → k < 6 → convertExact P k k z = z) ∧
+    (∀ i o : Int, ¬ (0 ≤ o ∧ o < 6 ∧ 0 ≤ i ∧ i < 6) → convertExact P i o z = Ang.NaN) :=
+  Proofs.AuxExactP.convertExact_same_oob P z
+
+/-- the rectifying latitude from the two meridian arcs: `μ = (π/2)·sa/(sa + sb)`; the cosine is formed as the sine of the
+    complementary arc so that it keeps its relative accuracy at the pole -/
+theorem rectifying_from_arcs (sa sb : ℝ) (h : sa + sb ≠ 0) :
+    (rectFromArcs sa sb).1 = Real.sin (π / 2 * (sa / (sa + sb))) ∧
+    (rectFromArcs sa sb).2.1 = Real.cos (π / 2 * (sa / (sa + sb))) ∧
+    (rectFromArcs sa sb).2.2 = 2 * (sa + sb) / π :=
+  Proofs.AuxExactP.rectFromArcs_spec sa sb h
+
+/-- the cancellation-free form of `tan χ` used for `f > 0` equals the general expression
+    `tan φ √(1+σ²) − σ √(1+tan²φ)` (the formula of `Math::taupf`) -/
+theorem conformal_branch_algebra (t s : ℝ) (ht : 0 < t) (hs : 0 ≤ s) :
+    (t - s) * (1 + s / t) / (√(1 ^ 2 + s ^ 2) + s / t * √(1 ^ 2 + t ^ 2)) = t * √(1 ^ 2 + s ^ 2) - s * √(1 ^ 2 + t ^ 2) :=
+  Proofs.AuxExactP.conformal_branch_algebra t s ht hs
+
+/-- on the executed definition: for `f > 0` and `σ < tan φ / 2` -/
+theorem conformal_oblate_is_taupf (P : AL ℝ) (tphi : ℝ) (hf : 0 < P.f) (ht : 0 < tphi)
+    (hs : 0 ≤ Real.sinh (P.e2 * atanhee P tphi)) (hlt : Real.sinh (P.e2 * atanhee P tphi) < tphi / 2) :
+    tchiOf P tphi = tphi * sc (Real.sinh (P.e2 * atanhee P tphi)) - Real.sinh (P.e2 * atanhee P tphi) * sc tphi :=
+  Proofs.AuxExactP.tchiOf_eq_taupf P tphi hf ht hs hlt
+
+/-- for `f ≤ 0` the general expression is used directly -/
+theorem conformal_prolate_is_taupf (P : AL ℝ) (tphi : ℝ) (hf : P.f ≤ 0) :
+    tchiOf P tphi = tphi * sc (Real.sinh (P.e2 * atanhee P tphi)) - Real.sinh (P.e2 * atanhee P tphi) * sc tphi :=
+  Proofs.AuxExactP.tchiOf_prolate P tphi hf
+
+/-- the authalic latitude: with `Dq⁺(1 − sin φ) = q(π/2) − q(φ)` and `Dq⁻ = (q(π/2) + q(φ))/(1 + sin φ)` the pair
+    `(q(φ), cos φ √(Dq⁺ Dq⁻))` has modulus `q(π/2)`, i.e. `sin ξ = q(φ)/q(π/2)` -/
+theorem authalic_modulus (qv Q s cx Dqp : ℝ) (hs : s ^ 2 + cx ^ 2 = 1) (hs1 : 0 ≤ s ∧ s < 1) (hcx : 0 < cx)
+    (hq : 0 ≤ qv ∧ qv ≤ Q) (hD : Dqp * (1 - s) = Q - qv) :
+    qv ^ 2 + (cx * √(Dqp * ((Q + qv) / (1 + s)))) ^ 2 = Q ^ 2 :=
+  Proofs.AuxExactP.authalic_modulus qv Q s cx Dqp hs hs1 hcx hq hD
+
+/-- if the Newton loop of `FromAuxiliary` stops because the target is hit, the returned tangent is a solution -/
+theorem newton_exact_is_solution (P : AL ℝ) (auxin : Int) (tzeta ltzeta : ℝ) (fuel : ℕ) (s t : Newton ℝ)
+    (h : newtonLoop P auxin tzeta ltzeta fuel s = (t, Exit.exact)) :
+    (toAux P auxin (Ang.ofTan t.tphi)).1.tan = tzeta :=
+  Proofs.AuxExactP.newtonLoop_exact P auxin tzeta ltzeta fuel s t h
+
+/-- if it stops because the step in `log₂ tan φ` fell below `√ε`, the result is one plain Newton step from a point whose
+    last logarithmic step was below the tolerance -/
+theorem newton_converged_step (P : AL ℝ) (auxin : Int) (tzeta ltzeta : ℝ) (fuel : ℕ) (s t : Newton ℝ)
+    (h : newtonLoop P auxin tzeta ltzeta fuel s = (t, Exit.converged)) :
+    ∃ tphi : ℝ, t.tphi = tphi - ((toAux P auxin (Ang.ofTan tphi)).1.tan - tzeta) / (toAux P auxin (Ang.ofTan tphi)).2 ∧
+      tphi = (2 : ℝ) ^ t.ltphi :=
+  Proofs.AuxExactP.newtonLoop_converged P auxin tzeta ltzeta fuel s t h
+
+/-- the iteration count never exceeds the budget by more than the final step -/
+theorem newton_count (P : AL ℝ) (auxin : Int) (tzeta ltzeta : ℝ) (fuel : ℕ) (s : Newton ℝ) (hs : s.n ≤ numit) :
+    (newtonLoop P auxin tzeta ltzeta fuel s).1.n ≤ numit + 1 :=
+  Proofs.AuxExactP.newtonLoop_count P auxin tzeta ltzeta fuel s hs
+
+/-- `QuarterMeridian = (π/2)·RectifyingRadius(exact)`, i.e. `2 R_G(a², b²)` -/
+theorem quarter_meridian_exact (P : AL ℝ) :
+    quarterMeridian P = π / 2 * rectifyingRadiusExact P ∧ quarterMeridian P = 2 * rg2 (P.a ^ 2) (P.b ^ 2) :=
+  Proofs.AuxExactP.quarterMeridian_eq P
+
+/-- `Area = 4π·AuthalicRadiusSquared(exact) = 2π(a² + b² asinh(e′)/e)` (oblate), `2π(a² + b² atan(e)/e)` (prolate), `4πa²` (sphere) -/
+theorem area_closed_form (a f : ℝ) (ha : a ≠ 0) (hf : f < 1) :
+    let P := AL.mk2 a f
+    area P = 4 * π * authalicRadiusSqExact P ∧
+    (0 < f → area P = 2 * π * (a ^ 2 + P.b ^ 2 * (Real.arsinh P.e1 / P.e))) ∧
+    (f < 0 → area P = 2 * π * (a ^ 2 + P.b ^ 2 * (Real.arctan P.e / P.e))) ∧
+    (f = 0 → area P = 4 * π * a ^ 2) :=
+  Proofs.AuxExactP.area_eq a f ha hf
+
+/-- Euler's formula: `1/R(α) = cos²α / M + sin²α / N` -/
+theorem euler_formula (a e2 s salp calp : ℝ) (ha : a ≠ 0) (he : e2 ≠ 1) (hv : 0 < 1 - e2 * s ^ 2) :
+    1 / normalCurvatureRadius a e2 s salp calp =
+      calp ^ 2 / meridionalCurvatureRadius a e2 s + salp ^ 2 / transverseCurvatureRadius a e2 s :=
+  Proofs.AuxExactP.euler_formula a e2 s salp calp ha he hv
+
+/-- `M = N (1 − e²)/(1 − e² sin²φ)`; along the meridian (`α = 0`) the normal radius is `M`, across it (`α = 90°`) it is `N` -/
+theorem curvature_relations (a e2 s : ℝ) (he : e2 ≠ 1) (hv : 0 < 1 - e2 * s ^ 2) :
+    meridionalCurvatureRadius a e2 s = transverseCurvatureRadius a e2 s * (1 - e2) / (1 - e2 * s ^ 2) ∧
+    normalCurvatureRadius a e2 s 0 1 = meridionalCurvatureRadius a e2 s ∧
+    normalCurvatureRadius a e2 s 1 0 = transverseCurvatureRadius a e2 s :=
+  Proofs.AuxExactP.curvature_relations a e2 s he hv
+
+/-- `CircleRadius = N cos φ`, `CircleHeight = N (1 − e²) sin φ`, and the point lies on the ellipse -/
+theorem circle_closed_form (a f s c : ℝ) (hf : f < 1) (hsc : s ^ 2 + c ^ 2 = 1) :
+    let P := AL.mk2 a f
+    circleRadius P s c = transverseCurvatureRadius a P.e2 s * c ∧
+    circleHeight P s c = transverseCurvatureRadius a P.e2 s * (1 - P.e2) * s ∧
+    (a ≠ 0 → (circleRadius P s c / a) ^ 2 + (circleHeight P s c / P.b) ^ 2 = 1) :=
+  Proofs.AuxExactP.circle_closed_form a f s c hf hsc
+
+/-! ### non-vacuity -/
+
+/-- `newton_exact_is_solution`: the loop can end through the exact test (here for the identity conversion) -/
+example (P : AL ℝ) (t : ℝ) :
+    newtonLoop P 0 t (RealX.log2 t) 1 ⟨t, 0, 0, 0, 0, 0, 0⟩ = (⟨t, 0, 0, 0, 0, 0, 1⟩, Exit.exact) := by
+  unfold newtonLoop numit toAux Ang.ofTan Ang.tan
+  simp [eqb_real, lit_real]
+example : ((⟨3, 4⟩ : Ang ℝ).x ≠ 0 ∨ (⟨3, 4⟩ : Ang ℝ).y ≠ 0) := Or.inl (by norm_num)
+example : ((3 / 5 : ℝ)) ^ 2 + (4 / 5) ^ 2 = 1 ∧ (1 / 298 : ℝ) < 1 := by norm_num
+
+end auxexact
 
 end GeoVerif.Props.C15
